@@ -4,6 +4,7 @@ import io
 
 import dns.btreezone
 import dns.edns
+import os
 import struct
 
 import dns.exception
@@ -46,7 +47,7 @@ ASSUMPTIONS = [
     "$GENERATE ranges are capped by the generator (a documented huge loop is not a hang); inputs <= 64 KiB",
 ]
 REQUIRED = ["mon.structured_message_mutations", "ep.message.from_wire", "ep.name.from_wire", "ep.rdata.from_wire", "ep.edns.option_from_wire", "ep.name.from_text", "ep.rdata.from_text",
-            "ep.ttl.from_text", "ep.zone.from_text", "ep.zonefile.read_rrsets", "ep.message.from_text", "ep.rrset.from_text", "mon.rerender", "mon.continue_on_error", "mon.continue_on_error_one_damaged_record", "mon.keyring_of_bare_secrets"]
+            "ep.ttl.from_text", "ep.zone.from_text", "ep.zonefile.read_rrsets", "ep.message.from_text", "ep.rrset.from_text", "mon.rerender", "mon.continue_on_error", "mon.continue_on_error_one_damaged_record", "mon.keyring_of_bare_secrets", "mon.zone_octets_not_utf8"]
 BUDGET = {"quick": 50.0, "thorough": 480.0}
 
 ATOMS = ["\\300", "\\256", "\\999", "\\00", "\\0", "\\", "\\1a2", '""', '"', "(", ")", "((", "))", ";", "$TTL", "$ORIGIN", "$GENERATE", "$INCLUDE", "$UNICODE", "$",
@@ -419,6 +420,31 @@ def fuzz_zone_text(mon, rng, t, origin_text):
             ctx.violation("zone-syntax-error-without-file-line", msg[:200], case)
     except Exception:
         pass
+    if rng.random() < 0.08:
+        # the same zone file as OCTETS that are not valid UTF-8 (a stray 0xFF / a cut multi-byte sequence somewhere): handed
+        # over as bytes, or read from a file
+        ctx.count("mon.zone_octets_not_utf8")
+        raw = bytearray(t.encode("utf-8", "replace"))
+        pos = rng.randrange(len(raw) + 1)
+        raw[pos:pos] = rng.choice((b"\xff", b"\xc3", b"\xe2\x82", b"\x80", b"\xf0\x9f"))
+        raw = bytes(raw)
+        try:
+            raw.decode("utf-8")
+        except UnicodeDecodeError:
+            case_b = dict(case, kind="zonebytes", octets=raw)
+            case_b.pop("text", None)
+            if rng.random() < 0.5:
+                mon.run("zone.from_text", lambda: dns.zone.from_text(raw, origin=origin, zone_factory=fac, **opts), len(raw), case_b, allow_semantic=True, wire=False)
+            else:
+                import tempfile
+
+                fd, path = tempfile.mkstemp(prefix="c04-", suffix=".zone", dir=os.path.join(core.ROOT, ".work") if os.path.isdir(os.path.join(core.ROOT, ".work")) else None)
+                try:
+                    with os.fdopen(fd, "wb") as f:
+                        f.write(raw)
+                    mon.run("zone.from_file", lambda: dns.zone.from_file(path, origin=origin, zone_factory=fac, **opts), len(raw), case_b, allow_semantic=True, wire=False)
+                finally:
+                    os.unlink(path)
     if z is not None:
         mon.rerender("zone.from_text", z, [("to_text", lambda: z.to_text()), ("iterate", lambda: [(n.to_text(), [r.to_text() for r in node.rdatasets]) for n, node in z.nodes.items()]),
                                            ("to_text_abs", lambda: z.to_text(relativize=False))], case)
@@ -620,6 +646,10 @@ def replay(case, ctx):
         elif k == "zonetext":
             for _ in range(12):
                 fuzz_zone_text(mon, rng, case["text"], case.get("origin") or "example.")
+        elif k == "zonebytes":
+            raw = case["octets"]
+            mon.run("zone.from_text", lambda: dns.zone.from_text(raw, origin=case.get("origin"), relativize=case["opts"].get("relativize", True), check_origin=case["opts"].get("check_origin", True)),
+                    len(raw), case, allow_semantic=True, wire=False)
         elif k == "rrsetstext":
             for _ in range(12):
                 fuzz_read_rrsets(mon, rng, case["text"])
